@@ -3,9 +3,15 @@
 lean/NflVerif/Generated/ExprAst.lean
 
 Template machinery is type-level, so it is translated through INSTANTIATIONS: the translation unit contains, per
-configuration (serial build: -DNFL_OPTIMIZED; SSE build: -DNFL_OPTIMIZED -msse4.2 -DNTT_SSE) one function
-`nflverif_<shape>_<k>(d, a0, a1, ...) { d = <expression>; }` per expression shape and polynomial type, `poly c(<expr>)` for the
-constructor and `bool(a)` for `poly::operator bool`.  Starting from each such function every callee is translated ON DEMAND
+configuration (serial build: -DNFL_OPTIMIZED; SSE build: -DNFL_OPTIMIZED -msse4.2 -DNTT_SSE; AVX2 build: -DNFL_OPTIMIZED -mavx2 -DNTT_AVX2)
+one function `nflverif_<shape>_<k>(d, a0, a1, ...) { d = <expression>; }` per expression shape and polynomial type, `poly c(<expr>)` for the
+constructor, `bool(a)` for `poly::operator bool` and `bool(<comparison>)` (a == b, a != b, (a + b) == c) for `expr::operator bool`
+THROUGH the expression machinery: `eqmod::operator()<A>` / `neqmod::operator()<A>` are translated from their instantiated bodies (scalar A: the
+`bool` converted to A; A = __m128i on uint64_t: GCC's vector compare of 64-bit lanes, Simd.vecEq64 / vecNeq64); the instantiated body of
+`operator bool` is translated again with tools/gen_bool_ast.py's translator, must be character for character the definition of
+Generated/BoolAst.lean, and that definition is bound to what THIS instantiation resolves (nmoduli / degree through `first_of`,
+`simd_mode::elt_count<T>::value`, `is_eqmod<Op>::value` through the base class of the instantiated trait, the `store` and `load<simd_mode>` called;
+the local array `tmp` is an object of its own with indeterminate initial contents).  Starting from each such function every callee is translated ON DEMAND
 from its instantiated body (the AST gives the resolved callee of every call):
   the operator overloads / `shoup` / `compute_shoup` (poly.hpp, macros of ops.hpp), `ops::make_op`, `_make_op<…>::operator()` (generic and the
   `shoup(mulmod(a,b),c)` specialisation), the `expr` constructor (member-initialiser `args{args...}`), `poly::operator=(expr const&)`,
@@ -44,11 +50,19 @@ SHAPES = [
     ("shoup", ("shoup", ("mul", 0, 1), 2)), ("addmul", ("mul", ("add", 0, 1), 2)),
     ("fma", ("add", 0, ("shoup", ("mul", 1, 2), 3))), ("cs", ("compute_shoup", 0)),
 ]
-POLYS = {"u32": [("uint32_t", 16, 2), ("uint32_t", 32, 1)], "u64": [("uint64_t", 8, 1), ("uint64_t", 16, 3)]}
+# comparison shapes: only converted to bool (`bool(<expr>)` -> expr::operator bool), never assigned
+BOOL_SHAPES = [("eq", ("eq", 0, 1)), ("neq", ("neq", 0, 1)), ("addeq", ("eq", ("add", 0, 1), 2))]
+ASSIGN_SHAPES = [s[0] for s in SHAPES]
+SHAPES = SHAPES + BOOL_SHAPES
+POLYS = {"u16": [("uint16_t", 16, 1), ("uint16_t", 32, 2)], "u32": [("uint32_t", 16, 2), ("uint32_t", 32, 1)], "u64": [("uint64_t", 8, 1), ("uint64_t", 16, 3)]}
+# (name, flags, assignments, constructions, poly -> bool, expression -> bool)
 CONFIGS = [
-    ("serial", ["-DNFL_OPTIMIZED"], {"u32": [s[0] for s in SHAPES], "u64": [s[0] for s in SHAPES]}, {"u32": ["add"], "u64": ["add"]}, ["u32", "u64"]),
-    ("sse", ["-DNFL_OPTIMIZED", "-msse4.2", "-DNTT_SSE"], {"u32": ["add", "sub", "fma"], "u64": ["addmul"]}, {}, []),
+    ("serial", ["-DNFL_OPTIMIZED"], {"u32": ASSIGN_SHAPES, "u64": ASSIGN_SHAPES}, {"u32": ["add"], "u64": ["add"]}, ["u32", "u64"],
+     {"u32": [b[0] for b in BOOL_SHAPES], "u64": [b[0] for b in BOOL_SHAPES]}),
+    ("sse", ["-DNFL_OPTIMIZED", "-msse4.2", "-DNTT_SSE"], {"u32": ["add", "sub", "fma"], "u64": ["addmul"]}, {}, [], {"u64": [b[0] for b in BOOL_SHAPES]}),
+    ("avx2", ["-DNFL_OPTIMIZED", "-mavx2", "-DNTT_AVX2"], {"u16": ["fma"]}, {}, [], {}),
 ]
+BOOL_AST = os.path.join(GEN, "BoolAst.lean")
 CPP_OP = {"add": "(%s + %s)", "sub": "(%s - %s)", "mul": "(%s * %s)", "shoup": "nfl::shoup(%s, %s)", "compute_shoup": "nfl::compute_shoup(%s)",
           "eq": "(%s == %s)", "neq": "(%s != %s)"}
 CALLEE_SRC = {"operator+": "add", "operator-": "sub", "operator*": "mul", "shoup": "shoup", "compute_shoup": "compute_shoup",
@@ -72,7 +86,7 @@ def subexprs(t):
 
 
 def make_tu(cfg):
-    name, _, assigns, ctors, pbools = cfg
+    name, _, assigns, ctors, pbools, ebools = cfg
     L = ['#include "nfl.hpp"', "#include <utility>", "namespace nfl {",
          "template<size_t I, class Tup> auto nflverif_get(Tup const& t) -> decltype(std::get<I>(t)) { return std::get<I>(t); }",
          "template<class Tup, size_t... I> void nflverif_gets(Tup const& t, std::index_sequence<I...>) { int x[] = { ((void)nflverif_get<I>(t), 0)... }; (void)x; }",
@@ -95,6 +109,14 @@ def make_tu(cfg):
                 L.append("void nflverif_construct_%s_%s_%d(%s) { %s c(%s); }" % (sh, tk, k, ps, p, cpp_of(tree)))
             if tk in pbools:
                 L.append("bool nflverif_tobool_%s_%d(%s const& a0) { return bool(a0); }" % (tk, k, p))
+            for sh in ebools.get(tk, []):
+                tree = shapes[sh]
+                n = len(set(leaves(tree)))
+                ps = ", ".join("%s const& a%d" % (p, i) for i in range(n))
+                L.append("bool nflverif_tobool_%s_%s_%d(%s) { return bool(%s); }" % (sh, tk, k, ps, cpp_of(tree)))
+                # class constants of the expression = those of the polynomial type (checked by the compiler; the translator also resolves them from the AST)
+                L.append("void nflverif_gets_tobool_%s_%s_%d(%s) { %s static_assert(decltype(%s)::degree == %d && decltype(%s)::nmoduli == %d, \"shape\"); }" % (
+                    sh, tk, k, ps, " ".join("nfl::nflverif_getall(%s);" % cpp_of(x) for x in subexprs(tree)), cpp_of(tree), deg, cpp_of(tree), nm))
     return "\n".join(L) + "\n"
 
 
@@ -761,6 +783,8 @@ class Tr:
     def functor(self, fot, fd, vals, cmv, where):
         """Op{}(x..., cm) -> the generated functor of OpsAst / SimdAst, matched by qualified name and source line"""
         T, tag = fot[1][0][0], fot[1][1][0]
+        if fot[0] in ("eqmod", "neqmod"):
+            return self.fn_cmp_functor(fot, fd, vals, where)
         q = "nfl::ops::%s<%s, nfl::simd::%s>::operator()" % (fot[0], T, tag)
         f = self.functors.get(q)
         if f is None:
@@ -1032,6 +1056,201 @@ class Tr:
         self.memo[d["id"]] = info
         return info
 
+
+    # ------------------------------------------------------------------ eqmod / neqmod, expr::operator bool
+    def fn_cmp_functor(self, fot, fd, vals, where):
+        """`eqmod<T,tag>::operator()<A>(A x, A y, size_t)` / `neqmod<T,tag>::…`: `return x == y;` / `return x != y;`, translated from the
+        instantiated body.  A an unsigned integer type: the `bool` converted to A (`CSemExpr.ofBool`); A = `__m128i` (GCC vector of 2 `long long`):
+        the lane-wise compare of 64-bit lanes (`Simd.vecEq64` / `Simd.vecNeq64`) — only when the lanes of T are those lanes (T = uint64_t)."""
+        if fd["id"] not in self.memo:
+            T = fot[1][0][0]
+            ps = self.params_of(fd)
+            if len(ps) != 3 or dq(ps[2]) != "unsigned long" or dq(ps[0]) != dq(ps[1]) or len(vals) != 2:
+                fail(fd, "parameters of %s::operator()" % fot[0])
+            kind, lty, bits = self.valty(dq(ps[0]))
+            e = self.single_return(fd)
+            self.count(e)
+            def operand(x, k):
+                self.count(x)
+                r = x["inner"][0] if x.get("kind") == "ImplicitCastExpr" and x.get("castKind") == "LValueToRValue" and dq(x) == dq(ps[k]) else {}
+                self.count(r)
+                return r.get("kind") == "DeclRefExpr" and r["referencedDecl"]["id"] == ps[k]["id"]
+            if kind == "val":
+                b = e["inner"][0] if e.get("kind") == "ImplicitCastExpr" and e.get("castKind") == "IntegralCast" and dq(e) == dq(ps[0]) else {}
+                self.count(b)
+                if dq(ps[0]) != T or not (b.get("kind") == "BinaryOperator" and b.get("opcode") in ("==", "!=") and dq(b) == "bool" and
+                                          operand(b["inner"][0], 0) and operand(b["inner"][1], 1)):
+                    fail(e, "body of %s<%s,…>::operator()<%s> is not `return x == y;` on values of T" % (fot[0], T, dq(ps[0])))
+                body = "CSemExpr.ofBool (CSem.%s x y)" % {"==": "eqU", "!=": "neU"}[b["opcode"]]
+                suffix, ret = "u%d" % bits, "Nat"
+            else:
+                if not (e.get("kind") == "BinaryOperator" and e.get("opcode") in ("==", "!=") and dq(e) == dq(ps[0]) and
+                        operand(e["inner"][0], 0) and operand(e["inner"][1], 1)):
+                    fail(e, "body of %s<%s,…>::operator()<__m128i> is not `return x == y;`" % (fot[0], T))
+                if TBITS.get(T) != 64:
+                    fail(e, "vector compare (64-bit lanes) of a register seen as lanes of %s: change of lane view not translated" % T)
+                body = "Simd.%s x y" % {"==": "vecEq64", "!=": "vecNeq64"}[e["opcode"]]
+                suffix, ret = "v2u64", "List Nat"
+            name = "cmp_%s_%s" % (fot[0], suffix)
+            self.emit(name, "/-- `nfl::ops::%s<T, tag>::operator()<A>(A x, A y, size_t)`  (%s:%s), A = `%s`%s -/\n@[reducible] def %s (x y : %s) : %s :=\n  -- %s\n  %s" % (
+                fot[0], self.short(fd.get("_file")), fd.get("_line"), dq(ps[0]),
+                "" if kind == "val" else ": GCC's vector `==`/`!=` — each 64-bit lane all-ones or 0", name, ret, ret, self.src(e), body))
+            self.memo[fd["id"]] = {"name": name, "ret": ret}
+        info = self.memo[fd["id"]]
+        return "%s %s %s" % (info["name"], paren(vals[0]), paren(vals[1])), info["ret"]
+
+    def class_const(self, rd, where):
+        """`degree` / `nmoduli` of a `poly`, or of an `expr` (`static constexpr size_t degree = first_of(Args::degree...)`, through the
+        instantiated initialiser and the body of `first_of`)"""
+        name = rd.get("name")
+        d = self.byid.get(rd["id"])
+        if d is None or d.get("kind") != "VarDecl" or name not in ("degree", "nmoduli") or not d.get("type", {}).get("qualType", "").startswith("const "):
+            fail(where, "class constant %r" % name)
+        own = d.get("_parent") or {}
+        if own.get("name") == "poly":
+            return name
+        init = [c for c in d.get("inner", []) if c.get("kind")]
+        if own.get("name") != "expr" or len(init) != 1 or init[0].get("kind") != "CallExpr" or len(init[0].get("inner", [])) < 2:
+            fail(d, "constant %s of class %r is not `first_of(Args::%s...)`" % (name, own.get("name"), name))
+        call = init[0]
+        self.count(d); self.count(call)
+        crd = self.callee(call)
+        fd = self.decl(crd["id"], call, crd.get("name"))
+        key = ("first_of", fd["id"])
+        if key not in self.memo:
+            ps = self.params_of(fd)
+            r = self.single_return(fd)
+            self.count(r)
+            x = r["inner"][0] if r.get("kind") == "ImplicitCastExpr" and r.get("castKind") == "LValueToRValue" else {}
+            self.count(x)
+            if crd.get("name") != "first_of" or not ps or x.get("kind") != "DeclRefExpr" or x["referencedDecl"]["id"] != ps[0]["id"]:
+                fail(fd, "`%s` does not return its first argument" % crd.get("name"))
+            self.memo[key] = True
+        a = call["inner"][1]
+        self.count(a)
+        x = a["inner"][0] if a.get("kind") == "ImplicitCastExpr" and a.get("castKind") == "LValueToRValue" else {}
+        self.count(x)
+        if x.get("kind") != "DeclRefExpr" or x["referencedDecl"].get("name") != name:
+            fail(a, "first argument of first_of is not `Arg::%s`" % name)
+        return self.class_const(x["referencedDecl"], x)
+
+    def bool_ast_text(self):
+        """the definitions of Generated/BoolAst.lean (tools/gen_bool_ast.py)"""
+        if Tr._bool_ast is None:
+            try:
+                txt = open(BOOL_AST).read()
+            except OSError:
+                raise Unsupported("Generated/BoolAst.lean not found (run gen_bool_ast.py first)")
+            m = re.search(r"\n(/-- `nfl::ops::expr<Op, Args\.\.\.>::operator bool\(\) const`.*)\n\nend Nfl\.Gen\.BoolAst\n", txt, re.S)
+            sig = re.search(r"\ndef expr_to_bool ([^\n]*) : Bool :=\n", txt)
+            if not m or not sig:
+                raise Unsupported("Generated/BoolAst.lean has no definition `expr_to_bool`")
+            Tr._bool_ast = (m.group(1), [g.group(1) for g in re.finditer(r"\((\w+) : [^()]*\)", sig.group(1))])
+        return Tr._bool_ast
+
+    _bool_ast = None
+    NAME = "expr_to_bool"      # name of the definition tools/gen_bool_ast.py's translation produces
+
+    def fn_expr_tobool(self, d, own):
+        """`expr<Op, Args...>::operator bool()` of ONE instantiated expression class: the instantiated body is translated again with the
+        translator of tools/gen_bool_ast.py and must give, character for character, the definition `expr_to_bool` of Generated/BoolAst.lean; the
+        parameters of that definition are then bound to what clang resolved in THIS instantiation: `nmoduli`, `degree` (through `first_of`),
+        `simd_mode::elt_count<value_type>::value`, `is_eqmod<Op>::value` (base class of the instantiated trait), and
+        `stored cm j k` = `tmp[k]` after the resolved `simd_mode::store(tmp, this->load<simd_mode>(cm, j))` on the local array `tmp`
+        (an object of its own: a one-object heap `[tmp]`, pointer `(0, 0)`)."""
+        if d["id"] in self.memo:
+            return self.memo[d["id"]]
+        import gen_bool_ast as B
+        ot = self.class_ot(own, d)
+        if ot.kind != "expr":
+            fail(d, "operator bool of a non-expression")
+        fn = B.Fn(self, d).translate()
+        ref_text, ref_params = self.bool_ast_text()
+        if fn.render() != ref_text:
+            a, b = fn.render().splitlines(), ref_text.splitlines()
+            diff = [(x, y) for x, y in zip(a, b) if x != y][:2]
+            raise Unsupported("operator bool of %s translates to a text different from Generated/BoolAst.lean (regenerate it with gen_bool_ast.py): %r" % (ot.key(), diff or (len(a), len(b))))
+        if [p[0] for p in fn.params] != ref_params:
+            raise Unsupported("parameters %r of the translated operator bool, %r in Generated/BoolAst.lean" % ([p[0] for p in fn.params], ref_params))
+        self.nodes += fn.nodes
+        for k, v in fn.kinds.items():
+            self.kinds[k] = self.kinds.get(k, 0) + v
+        # ---- the store / load this instantiation calls
+        calls = []
+        def walk(x):
+            if isinstance(x, dict):
+                c = (x.get("inner") or [{}])[0]
+                if x.get("kind") == "CallExpr" and c.get("kind") == "ImplicitCastExpr" and c.get("inner", [{}])[0].get("kind") == "DeclRefExpr" and \
+                        c["inner"][0]["referencedDecl"].get("name") == "store":
+                    calls.append(x)
+                for y in x.get("inner", []):
+                    walk(y)
+        walk(d)
+        if len(calls) != 1 or len(calls[0]["inner"]) != 3:
+            fail(d, "%d calls of `store` in operator bool" % len(calls))
+        st = calls[0]
+        rd = self.callee(st)
+        sd = self.decl(rd["id"], st, rd.get("name"))
+        si = self.fn_simd(sd, self.owner(sd))
+        ld = self.skip(st["inner"][2])
+        d3, o, args = self.member_call(ld)
+        if d3.get("name") != "load" or self.skip(o).get("kind") != "CXXThisExpr" or self.owner(d3).get("id") != own.get("id") or len(args) != 2:
+            fail(ld, "second argument of store is not this->load<simd_mode>(cm, j)")
+        li = self.fn_expr_load(d3, own)
+        if li["mode"] != si["mode"]:
+            fail(st, "store of mode %s applied to load<%s>" % (si["mode"], li["mode"]))
+        # ---- the constants
+        bind = {"stored": "(fun cm j k => CSemExpr.loadCell (%s [tmp] (CSemExpr.elemPtr 0 0) (%s %s m this cm j)) (CSemExpr.elemPtr 0 k))" % (si["name"], li["name"], KARGS)}
+        names = dict((v[1], k) for k, v in fn.env.items() if v[1] in ref_params)
+        iseq = None
+        for pn in ref_params:
+            if pn == "stored":
+                continue
+            if pn not in names:
+                fail(d, "parameter %r of expr_to_bool is not a constant referenced by this instantiation" % pn)
+            vd = self.byid.get(names[pn])
+            if pn in ("nmoduli", "degree"):
+                if vd is None or (vd.get("_parent") or {}).get("id") != own.get("id"):
+                    fail(d, "`%s` is not a member of the expression class" % pn)
+                if self.class_const({"id": vd["id"], "name": vd.get("name")}, vd) != pn:
+                    fail(vd, "expr::%s does not resolve to poly::%s" % (pn, pn))
+                bind[pn] = pn
+            elif pn == "elt_count_value":
+                ec = (vd or {}).get("_parent") or {}
+                mo = ((ec.get("_parent") or {}).get("_parent") or {}).get("name")
+                if vd is None or vd.get("name") != "value" or ec.get("name") != "elt_count" or mo != si["mode"]:
+                    fail(d, "vector_size is not simd::%s::elt_count<T>::value" % si["mode"])
+                vi = [c for c in vd["inner"] if c.get("kind")][0]
+                vs = self.nat(vi["inner"][0] if vi.get("kind") == "ImplicitCastExpr" and vi.get("castKind") == "IntegralCast" and vi["inner"][0].get("kind") == "BinaryOperator" else vi, {})
+                bind[pn] = "(%s)" % vs
+            elif pn == "is_eqmod_value":
+                # `value` is a member of std::integral_constant (outside the dumped namespace): resolved through the base of the instantiated trait is_eqmod<Op>
+                op = [a.get("type", {}).get("qualType", "") for a in own.get("inner", []) if a.get("kind") == "TemplateArgument"][0]
+                found = []
+                for c in self.byid.values():
+                    if c.get("kind") == "ClassTemplateSpecializationDecl" and c.get("name") == "is_eqmod" and c.get("completeDefinition"):
+                        ta = [a.get("type", {}).get("qualType", "") for a in c.get("inner", []) if a.get("kind") == "TemplateArgument"]
+                        if len(ta) == 1 and parse_type(ta[0]) == parse_type(op):
+                            found.append(c)
+                bases = [b.get("type", {}).get("desugaredQualType", "") for c in found for b in c.get("bases", [])]
+                vals = {"std::integral_constant<bool, true>": True, "std::integral_constant<bool, false>": False}
+                if len(found) != 1 or len(bases) != 1 or bases[0] not in vals:
+                    fail(d, "is_eqmod<%s> not resolved (%d instantiations, bases %r)" % (op, len(found), bases))
+                iseq = vals[bases[0]]
+                bind[pn] = "true" if iseq else "false"
+            else:
+                fail(d, "parameter %r of expr_to_bool has no binding rule" % pn)
+        T = tsuf(ot.T)
+        name = "expr_to_bool_%s_%s_%s" % (si["mode"], T, ot.key())
+        self.emit(name, "/-- `expr<%s<T,%s>, …>::operator bool()`  (%s:%s) = `Gen.BoolAst.expr_to_bool` (same translated text) with what this instantiation resolves:\n"
+                        "    `simd_mode` = simd::%s, `is_eqmod<Op>::value` = %s; `tmp` : indeterminate initial contents of the local array `tmp[vector_size]` -/\n"
+                        "@[reducible] def %s %s (m : CSemExpr.Mem) (tmp : List Nat) (this : %s) : Bool :=\n  Gen.BoolAst.expr_to_bool %s" % (
+                            ot.op, ot.tag, self.short(d.get("_file")), d.get("_line"), si["mode"], bind["is_eqmod_value"], name, KPARAMS, ot.lean(),
+                            " ".join(bind[pn] for pn in ref_params)))
+        info = {"name": name, "ot": ot, "mode": si["mode"], "vs": bind["elt_count_value"][1:-1], "iseq": iseq}
+        self.memo[d["id"]] = info
+        return info
+
     # ------------------------------------------------------------------ the functions of the translation unit
     def src_tree(self, n, leafno):
         n = self.skip(n)
@@ -1114,10 +1333,34 @@ class Tr:
         # tobool
         self.count(s)
         e = s["inner"][0] if s.get("kind") == "ReturnStmt" else {}
+        if e.get("kind") == "ExprWithCleanups":
+            self.count(e)
+            e = e["inner"][0]
         while e.get("kind") in ("CXXFunctionalCastExpr", "ImplicitCastExpr") and e.get("castKind") in ("NoOp", "UserDefinedConversion"):
             self.count(e)
             e = e["inner"][0]
         d, o, args = self.member_call(e)
+        if shape:
+            # bool(<expression>): expr::operator bool through the expression machinery
+            own = self.owner(d)
+            if d.get("name") != "operator bool" or args or own.get("name") != "expr":
+                fail(e, "expected bool(<expression>)")
+            self.fc = 0
+            rv = self.obj(o, env)
+            fc = self.fc
+            info = self.fn_expr_tobool(d, own)
+            pot = env[ps[0]["id"]].ot
+            if info["ot"].key() != rv.ot.key() or set(rv.ot.polys()) != {(pot.T, pot.deg, pot.nm)}:
+                fail(e, "operator bool instantiated for another expression / mixed polynomial types")
+            name = "tobool_%s_%s_%s" % (shape, cfg, T)
+            self.emit(name, "/-- `bool(%s)` for `poly<%s, Degree, NbModuli>` in the %s build (`simd_mode` = simd::%s); `tmp` = the indeterminate initial contents of the local array -/\n"
+                            "@[reducible] def %s %s (m : CSemExpr.Mem) (tmp : List Nat) (%s : Nat) : Bool :=\n  %s %s m tmp %s" % (
+                                cpp_of(dict(SHAPES)[shape]), pot.T, cfg, info["mode"], name, KPARAMS, " ".join(sig), info["name"], KARGS, paren(rv.text)))
+            data = "{ backend := %d, limbBits := %d, src := %s, ty := %s, fused := %d, storeMode := %d, vectorSize := %s }" % (
+                self.modes[cfg], TBITS[pot.T], self.src_tree(o, leafno), self.ty_data(rv.ot), fc, self.modes[info["mode"]], info["vs"])
+            self.emit("resolved_tobool_%s_%s_%s" % (shape, cfg, T), "/-- what clang resolved for `bool(%s)` (%s build, %s): `storeMode` / `vectorSize` are those of the `store` / `elt_count` of `operator bool` -/\n"
+                      "def resolved_tobool_%s_%s_%s : CSemExpr.Resolved :=\n  %s" % (cpp_of(dict(SHAPES)[shape]), cfg, pot.T, shape, cfg, T, data))
+            return name
         ov = self.obj(o, env)
         if d.get("name") != "operator bool" or args or ov.ot.kind != "poly":
             fail(e, "expected bool(a0) on a poly")
@@ -1161,6 +1404,7 @@ def main():
         if len(functors) < 15:
             raise Unsupported("only %d functor definitions found in Generated/OpsAst.lean / SimdAst.lean (run gen_ops_ast.py / gen_simd_ast.py first)" % len(functors))
         Tr.extents = {}
+        Tr._bool_ast = None
         for cfg in CONFIGS:
             tu = os.path.join(BUILD, "expr_ast_tu_%s.cpp" % cfg[0])
             open(tu, "w").write(make_tu(cfg))
@@ -1175,7 +1419,7 @@ def main():
             objs = parse_objects(r.stdout)
             byid = annotate(objs)
             tr = Tr(repo, cfg, byid, defs, functors)
-            want = sum(len(v) * 2 for v in cfg[2].values()) + sum(len(v) * 2 for v in cfg[3].values()) + 2 * len(cfg[4])
+            want = sum(len(v) * 2 for v in cfg[2].values()) + sum(len(v) * 2 for v in cfg[3].values()) + 2 * len(cfg[4]) + sum(len(v) * 2 for v in cfg[5].values())
             got = 0
             for o in objs:
                 if o.get("kind") == "FunctionDecl" and o.get("name", "").startswith("nflverif_") and not o["name"].startswith("nflverif_gets_"):
@@ -1191,7 +1435,8 @@ def main():
                 kinds[k] = kinds.get(k, 0) + v
             align |= tr.align_sites
             summary[cfg[0]] = {"functions": got, "std_get_instantiations": len(tr.getidx), "modes": tr.modes}
-        single = [n for n, v in defs.items() if v[2] < 2 and not n.startswith("simd_")]   # simd::X::load/store<T> do not depend on Degree / NbModuli
+        # simd::X::load/store<T> and eqmod/neqmod::operator()<A> do not depend on Degree / NbModuli
+        single = [n for n, v in defs.items() if v[2] < 2 and not n.startswith("simd_") and not n.startswith("cmp_")]
         if single:
             raise Unsupported("definitions produced by one instantiation only (no second template argument set to compare with): %s" % ", ".join(single[:5]))
     except Unsupported as e:
@@ -1204,19 +1449,20 @@ def main():
     helper = [n for n in defs if not n.startswith("resolved_") and n != "poly_assign"]
     head = [
         "-- GENERATED by tools/gen_expr_ast.py from clang++-14's typed AST of the expression-template evaluation machinery",
-        "-- (include/nfl/core.hpp, poly.hpp, ops.hpp, arch/common.hpp, opt/arch/sse.hpp), through the instantiations of build/expr_ast_tu_*.cpp.  Do not edit.",
+        "-- (include/nfl/core.hpp, poly.hpp, ops.hpp, arch/common.hpp, opt/arch/sse.hpp, opt/arch/avx2.hpp), through the instantiations of build/expr_ast_tu_*.cpp.  Do not edit.",
         "-- Every definition is the translation of one C++ function body; each was produced by (at least) two instantiations that gave the same text.",
         "import NflVerif.Model.CSem",
         "import NflVerif.Model.CSemExpr",
         "import NflVerif.Generated.OpsAst",
         "import NflVerif.Generated.SimdAst",
+        "import NflVerif.Generated.BoolAst",
         "namespace Nfl.Gen.ExprAst",
         "open Nfl",
         "set_option linter.unusedVariables false",
         "",
     ]
     body = "\n\n".join(v[0] for v in defs.values())
-    unfold = ("/-- unfolds every translated helper definition (not the loop `poly_assign`) -/\nmacro \"expr_ast_unfold\" : tactic =>\n  `(tactic| simp only [%s])" %
+    unfold = ("set_option maxRecDepth 8192 in\n/-- unfolds every translated helper definition (not the loop `poly_assign`) -/\nmacro \"expr_ast_unfold\" : tactic =>\n  `(tactic| simp only [%s])" %
               ", ".join(helper))
     tail = "\n\n" + ext + "\n\n" + unfold + "\n\n/-- the test functions of the translation units -/\ndef toplevel_names : List String := [%s]\n\nend Nfl.Gen.ExprAst\n" % ", ".join('"%s"' % t for t in tops)
     text = "\n".join(head) + "\n" + body + tail
